@@ -55,12 +55,17 @@ type Step struct {
 	Pat    Pat
 	Vals   []Val
 	CQ     []KV
+	OpAuth bool // the operation has an auth writer ...
+	AQ     []KV // ... which sets these query parameters (client.APIKeyAuth(name, "query", value)); none: an API key header
 	OS     []string
 	Orders [][]int
 	Reps   int
 }
 
 type Case struct {
+	DQ     []KV // query parameters set by Runtime.DefaultAuthentication (API keys in the query)
+	OpAuth bool // single-step form: see Step
+	AQ     []KV
 	Steps  []Step // when empty, the single step is given by Pat/Vals/CQ/OS/Orders/Reps below
 	Base   Base
 	Pat    Pat
@@ -115,14 +120,14 @@ func (st Step) JSON() M {
 		orders = [][]int{}
 	}
 	return M{"pat": M{"trailing": st.Pat.Trailing, "segs": segs, "query": kvJSON(st.Pat.Query)},
-		"vals": vals, "cq": kvJSON(st.CQ), "os": trace.S(st.OS), "orders": orders, "reps": st.Reps}
+		"vals": vals, "cq": kvJSON(st.CQ), "opauth": st.OpAuth, "aq": kvJSON(st.AQ), "os": trace.S(st.OS), "orders": orders, "reps": st.Reps}
 }
 
 func (c Case) steps() []Step {
 	if len(c.Steps) > 0 {
 		return c.Steps
 	}
-	return []Step{{Pat: c.Pat, Vals: c.Vals, CQ: c.CQ, OS: c.OS, Orders: c.Orders, Reps: c.Reps}}
+	return []Step{{Pat: c.Pat, Vals: c.Vals, CQ: c.CQ, OpAuth: c.OpAuth, AQ: c.AQ, OS: c.OS, Orders: c.Orders, Reps: c.Reps}}
 }
 
 func (c Case) JSON() M {
@@ -134,6 +139,7 @@ func (c Case) JSON() M {
 		"base":  M{"lead": c.Base.Lead, "trailing": c.Base.Trailing, "segs": trace.BB(c.Base.Segs), "query": kvJSON(c.Base.Query)},
 		"rs":    trace.S(c.RS),
 		"host":  c.Host,
+		"dq":    kvJSON(c.DQ),
 		"steps": steps,
 	}
 }
@@ -150,6 +156,7 @@ func caseFrom(d M) Case {
 		c.RS = append(c.RS, drv.Str(s))
 	}
 	c.Host = drv.Str(d["host"])
+	c.DQ = kvFrom(d["dq"])
 	for _, sv := range drv.List(d["steps"]) {
 		sm := drv.Map(sv)
 		var st Step
@@ -169,6 +176,7 @@ func caseFrom(d M) Case {
 			st.Vals = append(st.Vals, Val{N: trace.Str(m["n"]), V: trace.Str(m["v"])})
 		}
 		st.CQ = kvFrom(sm["cq"])
+		st.OpAuth, st.AQ = drv.Bool(sm["opauth"]), kvFrom(sm["aq"])
 		for _, s := range drv.List(sm["os"]) {
 			st.OS = append(st.OS, drv.Str(s))
 		}
@@ -287,11 +295,34 @@ func build(rt *client.Runtime, st Step, order []int) (o obs) {
 			return nil
 		}),
 	}
+	if st.OpAuth {
+		op.AuthInfo = keyWriter(st.AQ)
+	}
 	req, err := rt.CreateHttpRequest(op)
 	if err != nil {
 		return obs{err: true}
 	}
 	return obs{scheme: req.URL.Scheme, host: req.URL.Host, path: req.URL.EscapedPath(), rawq: req.URL.RawQuery}
+}
+
+// keyWriter is the auth writer that puts the given API keys into the query (client.APIKeyAuth); without
+// query keys it is an API key in a header.
+func keyWriter(q []KV) runtime.ClientAuthInfoWriter {
+	if len(q) == 0 {
+		return client.APIKeyAuth("X-Key", "header", "h")
+	}
+	var ws []runtime.ClientAuthInfoWriter
+	for _, e := range q {
+		v := ""
+		if len(e.Vs) > 0 {
+			v = e.Vs[0]
+		}
+		ws = append(ws, client.APIKeyAuth(e.K, "query", v))
+	}
+	if len(ws) == 1 {
+		return ws[0]
+	}
+	return client.Compose(ws...)
 }
 
 // execute builds the whole history on ONE Runtime, as an application does.
@@ -301,6 +332,9 @@ func execute(c *drv.Ctx, d M) bool {
 	func() {
 		defer func() { _ = recover() }()
 		rt = client.New(cs.Host, cs.Base.String(), cs.RS)
+		if len(cs.DQ) > 0 {
+			rt.DefaultAuthentication = keyWriter(cs.DQ)
+		}
 	}()
 	nt := false
 	for si, st := range cs.Steps {
@@ -375,7 +409,11 @@ func nontrivial(c Case, st Step) bool {
 		}
 	}
 	lv := map[string]int{}
-	for _, q := range [][]KV{c.Base.Query, st.Pat.Query, st.CQ} {
+	aq := c.DQ
+	if st.OpAuth {
+		aq = st.AQ
+	}
+	for _, q := range [][]KV{c.Base.Query, st.Pat.Query, st.CQ, aq} {
 		seen := map[string]bool{}
 		for _, e := range q {
 			if !seen[e.K] {
@@ -552,6 +590,33 @@ func generate(c *drv.Ctx) {
 			nExh++
 		}
 	}
+	// (ii-b) auth writers that set query parameters (operation AuthInfo and Runtime.DefaultAuthentication) x static query
+	// parameters of colliding and other names in base path / pattern x the params writer's own value
+	authKeys := [][]KV{nil, {{"api_key", []string{"A"}}}, {{"k", []string{"A k&="}}}, {{"api_key", []string{"A1"}}, {"q", []string{"A2"}}}, {{"api_key", []string{""}}}}
+	statics := [][]KV{nil, {{"api_key", []string{"anonymous"}}}, {{"k", []string{"s"}}}, {{"api_key", []string{"s1", "s2"}}, {"other", []string{"o"}}}}
+	for _, bq := range statics {
+		for _, pq := range statics {
+			for _, cq := range [][]KV{nil, {{"api_key", []string{"mine"}}}, {{"k", []string{"c"}}, {"z", nil}}} {
+				for oi, aq := range authKeys {
+					for _, dq := range authKeys {
+						for _, opauth := range []bool{false, true} {
+							if !opauth && oi > 0 {
+								continue
+							}
+							cs := Case{Base: Base{Lead: true, Segs: []string{"api"}, Query: bq}, DQ: dq, Host: "h:1"}
+							p := simple
+							p.Query = pq
+							cs.Steps = []Step{{Pat: p, Vals: []Val{{"a", "v"}}, CQ: cq, OpAuth: opauth, AQ: aq, Orders: [][]int{{0}}, Reps: 1}}
+							// the same Runtime then serves an operation with the other auth setting
+							cs.Steps = append(cs.Steps, Step{Pat: p, Vals: []Val{{"a", "w"}}, CQ: cq, OpAuth: !opauth, AQ: authKeys[(oi+1)%len(authKeys)], Orders: [][]int{{0}}, Reps: 1})
+							c.Case(cs.JSON())
+							nExh++
+						}
+					}
+				}
+			}
+		}
+	}
 	// (iii) scheme track: all lists up to length 3 over {http, https, ws} for runtime and operation
 	var lists [][]string
 	names := []string{"http", "https", "ws"}
@@ -624,10 +689,10 @@ func generate(c *drv.Ctx) {
 		cs := randomCase(c, reps)
 		if i%4 == 0 {
 			// a random history: further operations on the same Runtime (same base path, host, runtime schemes)
-			cs.Steps = []Step{{Pat: cs.Pat, Vals: cs.Vals, CQ: cs.CQ, OS: cs.OS, Orders: cs.Orders, Reps: cs.Reps}}
+			cs.Steps = []Step{{Pat: cs.Pat, Vals: cs.Vals, CQ: cs.CQ, OpAuth: cs.OpAuth, AQ: cs.AQ, OS: cs.OS, Orders: cs.Orders, Reps: cs.Reps}}
 			for k, m := 0, 1+c.Rng.Intn(4); k < m; k++ {
 				o := randomCase(c, reps)
-				cs.Steps = append(cs.Steps, Step{Pat: o.Pat, Vals: o.Vals, CQ: o.CQ, OS: o.OS, Orders: o.Orders, Reps: o.Reps})
+				cs.Steps = append(cs.Steps, Step{Pat: o.Pat, Vals: o.Vals, CQ: o.CQ, OpAuth: o.OpAuth, AQ: o.AQ, OS: o.OS, Orders: o.Orders, Reps: o.Reps})
 			}
 		}
 		c.Case(cs.JSON())
@@ -747,6 +812,22 @@ func randomCase(c *drv.Ctx, reps int) Case {
 	}
 	if c.Rng.Intn(2) == 0 {
 		cs.CQ = randQuery(c, keys, 3, true, true)
+	}
+	one := func() []KV {
+		var out []KV
+		for _, e := range randQuery(c, keys, 2, false, true) {
+			out = append(out, KV{e.K, e.Vs[:1]})
+		}
+		return out
+	}
+	if c.Rng.Intn(3) == 0 {
+		cs.OpAuth = true
+		if c.Rng.Intn(4) > 0 {
+			cs.AQ = one()
+		}
+	}
+	if c.Rng.Intn(3) == 0 {
+		cs.DQ = one()
 	}
 	sch := []string{"http", "https", "ws", "wss"}
 	for i, n := 0, c.Rng.Intn(4); i < n && c.Rng.Intn(2) == 0; i++ {
